@@ -1375,7 +1375,15 @@ evbuffer_remove_buffer(struct evbuffer *src, struct evbuffer *dst,
 
 	/* we know that there is more data in the src buffer than
 	 * we want to read, so we manually drain the chain */
-	evbuffer_add(dst, chain->buffer + chain->misalign, datlen);
+	if (evbuffer_add(dst, chain->buffer + chain->misalign, datlen) < 0) {
+		/* Could not copy the last part: leave it in src and report
+		 * only what has been moved (or failure if that is nothing). */
+		if (nread == 0) {
+			result = -1;
+			goto done;
+		}
+		datlen = 0;
+	}
 	chain->misalign += datlen;
 	chain->off -= datlen;
 	nread += datlen;
